@@ -34,11 +34,12 @@ def run(chk):
     chk.rule("T-TABLE", "colour tables; next_border_pixel(T) within 16 px of the documented beam position for every T")
     chk.rule("T-TRACE", "set_border / new_frame / fill_to effects")
     short = lambda p: p.split("::")[-1]
-    got = set(short(p) for p in fa.writers(names.CTL, "border_color"))
-    chk.check(got <= {"set_border_color", "process_spcr_block"} and "set_border_color" in got, "T-WRITERS/ZXController.border_color",
+    got = cc.effective_writers(prog, cg, fa, names, names.CTL, "border_color", {"set_border_color"})
+    chk.check(got <= {"set_border_color", "load_snapshot"} and "set_border_color" in got, "T-WRITERS/ZXController.border_color",
               "border_color is written by %s" % sorted(got))
-    callers = set(short(s.fn.path) for s in cg.callers_of(names.ctl("set_border_color")))
-    chk.check(callers <= {"write_io", "load", "process_spcr_block"}, "T-WRITERS/ZXController::set_border_color/callers", "set_border_color is called from %s" % sorted(callers))
+    callers = cc.entry_points_reaching(prog, cg, names, names.ctl("set_border_color"))
+    chk.check(callers <= {"write_io", "load_snapshot"}, "T-WRITERS/ZXController::set_border_color/callers",
+              "set_border_color can be reached from the API entry points %s; the property allows the ULA port write and snapshot loading" % sorted(callers))
     color_tables(chk, prog)
     set_border_color(chk, prog, names)
     sna_border(chk, prog, names)
